@@ -209,6 +209,12 @@ type verifE1 struct {
 	// when set, every HTLC eventually gets resolved (C17 needs HTLC-free
 	// states with arbitrary msat balances).
 	noPendingFate bool
+	// forceAmt, when non-zero, makes the next actAdd offer exactly this
+	// amount with fate settle (balance shaping, see shapeNonOpener).
+	forceAmt lnwire.MilliSatoshi
+	// failOnlyFate turns every settle fate into a fail (the balances stay
+	// where they started; shaping cases of C17).
+	failOnlyFate bool
 
 	// terminal conditions
 	ended        bool
@@ -840,7 +846,12 @@ func (e *verifE1) actAdd(from int) bool {
 			live = append(live, x)
 		}
 	}
-	if len(live) > 0 && r.Chance(1, 5) {
+	if e.forceAmt != 0 {
+		h.Amt = e.forceAmt
+		h.Expiry = uint32(400 + r.Intn(6))
+		copy(h.Preimage[:], r.Bytes(32))
+		h.Hash = sha256.Sum256(h.Preimage[:])
+	} else if len(live) > 0 && r.Chance(1, 5) {
 		src := live[r.Intn(len(live))]
 		h.Amt, h.Expiry, h.Preimage, h.Hash = src.Amt, src.Expiry, src.Preimage, src.Hash
 		// same hash and amount with a different expiry: the outputs tie
@@ -858,6 +869,12 @@ func (e *verifE1) actAdd(from int) bool {
 	h.Fate = []int{verifFateSettle, verifFateSettle, verifFateSettle, verifFateFail,
 		verifFateFail, verifFateMalformed, verifFatePending}[r.Intn(7)]
 	if e.noPendingFate && h.Fate == verifFatePending {
+		h.Fate = verifFateSettle
+	}
+	if e.failOnlyFate && h.Fate == verifFateSettle {
+		h.Fate = verifFateFail
+	}
+	if e.forceAmt != 0 {
 		h.Fate = verifFateSettle
 	}
 	msg := &lnwire.UpdateAddHTLC{
@@ -909,6 +926,33 @@ func (e *verifE1) actAdd(from int) bool {
 	e.nAdds++
 	e.logf("add %s id=%d amt=%d exp=%d fate=%d", p.Name, idx, h.Amt, h.Expiry, h.Fate)
 	return true
+}
+
+// shapeNonOpener lifts the non-opener's settled balance to exactly want msat
+// with one HTLC from the opener that is settled and drained (the honest way to
+// reach a chosen balance; only upwards: a party cannot pay itself below its
+// reserve). Used by C17 to reach balances at a dust threshold +-1. Returns
+// false when the balance could not be reached (constraint, already above).
+func (e *verifE1) shapeNonOpener(want lnwire.MilliSatoshi) bool {
+	oi := e.openerIdx()
+	t := 1 - oi
+	cur := e.parties[t].ch.channelState.LocalCommitment.LocalBalance
+	if e.ended || want <= cur {
+		return false
+	}
+	e.forceAmt = want - cur
+	ok := e.actAdd(oi)
+	e.forceAmt = 0
+	if !ok {
+		return false
+	}
+	for round := 0; round < 4 && !e.ended; round++ {
+		if !e.drain(true, func(string) { e.checkStep() }) {
+			break
+		}
+	}
+	return !e.ended &&
+		e.parties[t].ch.channelState.LocalCommitment.LocalBalance == want
 }
 
 // actResolve issues the fated resolution of h from its receiver.
